@@ -42,7 +42,8 @@ class C17(Check):
     def _shapes(self, tier):
         if tier == 'quick':
             return [(3, 2, 1), (3, 2, 2), (4, 2, 2)]
-        return [(3, 2, 1), (3, 2, 2), (4, 2, 2), (4, 3, 2), (5, 2, 2), (4, 2, 3), (5, 3, 2), (6, 2, 2), (6, 3, 2), (5, 2, 3)]
+        return [(3, 2, 1), (3, 2, 2), (4, 2, 2), (4, 3, 2), (5, 2, 2), (4, 2, 3), (5, 3, 2), (6, 2, 2), (6, 3, 2), (5, 2, 3),
+                (7, 2, 2), (7, 3, 2), (6, 2, 3), (6, 4, 2), (8, 2, 1), (5, 4, 3)]
 
     def configs(self, tier):
         return [Config('ch_T%d_K%d_n%d' % s, self.ch, {'T': s[0], 'K': s[1], 'n': s[2]}, witness_every=1,
